@@ -443,7 +443,8 @@ func (h *bhist) observe(after string) (string, string) {
 			return false
 		}
 		cp, _ := b.GetCheckpoint(h.tidOf(c.Nonce))
-		sg, err := hex.DecodeString(strings.TrimPrefix(c.Signature, "0x"))
+		// the stored field exactly as stored: plain hex of exactly 65 bytes (no prefix stripped, nothing cut off)
+		sg, err := hex.DecodeString(c.Signature)
 		ok := err == nil && len(sg) == 65
 		var rec common.Address
 		if ok {
@@ -565,6 +566,8 @@ func confirmClass(err error) int64 {
 		return 9
 	case strings.Contains(s, "validator is unbonded"):
 		return 10
+	case strings.Contains(s, "signature decoding"), strings.Contains(s, "could not decode hex string"):
+		return 12
 	}
 	return 50
 }
@@ -662,6 +665,31 @@ func (h *bhist) confirmAs(v int, n uint64, plain, obs bool) {
 		sgb[64] += 27
 	}
 	sig := hex.EncodeToString(sgb)
+	// the signature FIELD in other lengths and spellings: a valid 65-byte signature cut short or followed by more bytes,
+	// or written with a 0x prefix.  Only exactly 65 bytes of plain hex are a signature; what is stored is the field as sent.
+	if !plain && r.Intn(7) == 0 {
+		shape := []string{"63-bytes", "64-bytes", "66-bytes", "67-bytes", "96-bytes", "0x-prefixed", "0x-prefixed-96-bytes"}[r.Intn(7)]
+		tail := make([]byte, 31)
+		r.Read(tail)
+		switch shape {
+		case "63-bytes":
+			sig = hex.EncodeToString(sgb[:63])
+		case "64-bytes":
+			sig = hex.EncodeToString(sgb[:64])
+		case "66-bytes":
+			sig = hex.EncodeToString(append(append([]byte{}, sgb...), tail[:1]...))
+		case "67-bytes":
+			sig = hex.EncodeToString(append(append([]byte{}, sgb...), tail[:2]...))
+		case "96-bytes":
+			sig = hex.EncodeToString(append(append([]byte{}, sgb...), tail...))
+		case "0x-prefixed":
+			sig = "0x" + sig
+		case "0x-prefixed-96-bytes":
+			sig = "0x" + hex.EncodeToString(append(append([]byte{}, sgb...), tail...))
+		}
+		what += "/signature-field:" + shape
+		spec = "C06.CJunk" // not a signature over anything, whatever its first 65 bytes are
+	}
 	written := spell(r, claimed)
 	h.run.Count("signer-spelling", spellingClass(written, claimed))
 	_, err = h.ms.ConfirmBatch(h.ctx, &types.MsgConfirmBatch{
@@ -671,6 +699,16 @@ func (h *bhist) confirmAs(v int, n uint64, plain, obs bool) {
 	c := confirmClass(err)
 	if c == 50 {
 		h.t.Fatalf("ConfirmBatch: %v", err)
+	}
+	if c == 12 {
+		// refused by the message's stateless validation (the signature field is not hex): never reaches the keeper, no model step
+		h.run.Count("op", "confirm(not-hex)")
+		h.run.Count("confirm-what", what+"/"+how)
+		h.replay = append(h.replay, map[string]any{"op": "confirm (refused: signature field is not hex)", "validator": mv, "nonce": n, "signature": sig})
+		if obs {
+			h.observe("confirm")
+		}
+		return
 	}
 	if err == nil {
 		h.regAt[fmt.Sprintf("%d/%d", n, mv)] = reg
